@@ -186,15 +186,28 @@ pub fn gen_c04_plan(r: &mut Rng, tier: Tier, job: u64) -> Plan {
 }
 
 fn gen_c04(r: &mut Rng, tier: Tier, job: u64) -> Plan {
+    gen_c04_inner(r, tier, job, None)
+}
+
+/// for C07: a binary row whose packet payload is exactly k * (2^24-1) bytes, k = 2 or 3
+pub fn gen_c04_binary_exact_multiple(r: &mut Rng) -> Plan {
+    let k = 2 + r.below(2);
+    let v = 5 + r.below(3);
+    gen_c04_inner(r, Tier::Quick, v, Some((k, 0)))
+}
+
+fn gen_c04_inner(r: &mut Rng, tier: Tier, job: u64, force: Option<(u64, i64)>) -> Plan {
     let k = match r.weighted(&[60, 30, 10]) {
         0 => 1u64,
         1 => 2,
         _ => 3,
     };
+    let k = force.map(|f| f.0).unwrap_or(k);
     // one text job in five leaves the giant row as the last one, written cell by cell and not
     // ended by the shim (finish()/drop ends it) -- mostly at the exact multiple
     let open_last = r.chance(1, 5);
     let d: i64 = if r.chance(1, 4) || (open_last && r.chance(3, 4)) { 0 } else { r.irange(-6, 6) };
+    let d = force.map(|f| f.1).unwrap_or(d);
     let target = (k * U24) as i64 + d; // logical message length
     let variant = if tier == Tier::Thorough { r.below(12) } else { job % 12 };
     if variant >= 10 {
